@@ -3,7 +3,7 @@
 # Confirms a seeded change independently: (1) demo passes on the pristine tree, (2) with the patch the existing
 # suite still passes, (3) with the patch the demo fails.  Works in a scratch worktree of /repo HEAD; removes it.
 set -u
-src=$1; name=$2
+src=$1; name=$2; flags=${3:--p sylvia}
 wt=/tmp/vs/$name
 mkdir -p /tmp/vs /verif/.build/seedlogs
 git -C /repo worktree remove --force "$wt" >/dev/null 2>&1
@@ -15,9 +15,9 @@ cp "$src/demo.rs" "$wt/sylvia/tests/$demo.rs"
 if ls "$src"/overlap.* >/dev/null 2>&1; then n=$(grep -o 'seed_demo_[0-9]*' "$src/demo.rs" | head -1); mkdir -p "$wt/sylvia/tests/$n"; cp "$src"/overlap.* "$wt/sylvia/tests/$n/"; fi
 log=/verif/.build/seedlogs/validate_$name.log
 : > $log
-(cd $wt && cargo test -p sylvia --offline --test $demo >> $log 2>&1); pristine=$?
+(cd $wt && cargo test $flags --offline --test $demo >> $log 2>&1); pristine=$?
 if ! git -C "$wt" apply --3way "$src/patch.diff" >> $log 2>&1; then echo "$name: PATCH-DOES-NOT-APPLY"; git -C /repo worktree remove --force "$wt"; exit 2; fi
-(cd $wt && cargo test -p sylvia --offline --test $demo >> $log 2>&1); patched=$?
+(cd $wt && cargo test $flags --offline --test $demo >> $log 2>&1); patched=$?
 rm -f "$wt/sylvia/tests/$demo.rs"
 (cd $wt && cargo test --workspace --no-fail-fast --offline >> $log 2>&1); suite=$?
 echo "$name: demo_on_pristine_exit=$pristine demo_with_patch_exit=$patched suite_with_patch_exit=$suite"
